@@ -2,10 +2,12 @@ package vuego
 
 import (
 	"fmt"
+	"sort"
 	"strings"
 	"sync"
 
 	"github.com/expr-lang/expr"
+	"github.com/expr-lang/expr/builtin"
 	"github.com/expr-lang/expr/vm"
 )
 
@@ -14,6 +16,13 @@ import (
 type ExprEvaluator struct {
 	mu       sync.RWMutex
 	programs map[string]*vm.Program
+
+	// shadowed lists the names of the expression library's built-in functions that are
+	// replaced by template functions of the same name (see SetFunctionNames).
+	shadowed []string
+
+	// functions lists all template function names.
+	functions []string
 }
 
 // NewExprEvaluator creates a new ExprEvaluator with an empty cache.
@@ -58,7 +67,22 @@ func (e *ExprEvaluator) getProgram(expression string) (*vm.Program, error) {
 	e.mu.RUnlock()
 
 	// Compile the expression
-	prog, err := expr.Compile(expression, expr.AllowUndefinedVariables(), expr.DisableBuiltin("count"))
+	options := []expr.Option{expr.AllowUndefinedVariables(), expr.DisableBuiltin("count")}
+	e.mu.RLock()
+	if len(e.functions) > 0 {
+		// Declare the template functions, so that the parser does not read e.g. sum(a, b)
+		// or map(x) as its own predicate built-ins.
+		declared := make(map[string]any, len(e.functions))
+		for _, name := range e.functions {
+			declared[name] = func(...any) (any, error) { return nil, nil }
+		}
+		options = append([]expr.Option{expr.Env(declared)}, options...)
+	}
+	for _, name := range e.shadowed {
+		options = append(options, expr.DisableBuiltin(name))
+	}
+	e.mu.RUnlock()
+	prog, err := expr.Compile(expression, options...)
 	if err != nil {
 		return nil, fmt.Errorf("compile error: %w", err)
 	}
@@ -69,6 +93,25 @@ func (e *ExprEvaluator) getProgram(expression string) (*vm.Program, error) {
 	e.mu.Unlock()
 
 	return prog, nil
+}
+
+// SetFunctionNames tells the evaluator which template functions exist. A built-in function of
+// the expression library with one of these names is disabled, so that a call such as len(x)
+// or upper(s) means the registered template function in every position, with the same
+// argument checks and conversions as in {{ }} and pipes. Compiled programs are dropped.
+func (e *ExprEvaluator) SetFunctionNames(names []string) {
+	e.mu.Lock()
+	defer e.mu.Unlock()
+	e.shadowed = e.shadowed[:0]
+	e.functions = append(e.functions[:0], names...)
+	sort.Strings(e.functions)
+	for _, name := range names {
+		if _, isBuiltin := builtin.Index[name]; isBuiltin {
+			e.shadowed = append(e.shadowed, name)
+		}
+	}
+	sort.Strings(e.shadowed)
+	e.programs = make(map[string]*vm.Program)
 }
 
 // ClearCache clears the program cache (useful for testing or memory management).
